@@ -30,6 +30,9 @@ func NewSchemaRef(sc *SchemaComponent) Schema {
 
 func NewSchema(s specification.Ref[specification.Schema], components Componenter, cfg Config) (zero Schema, _ Imports, _ error) {
 	var schemaRef *SchemaComponent
+	if s == nil {
+		return zero, nil, fmt.Errorf("schema is required")
+	}
 	if ref := s.Ref(); ref != nil {
 		refOut, ok := components.GetSchema(ref.Name)
 		if !ok {
